@@ -32,28 +32,45 @@ class SweepRecorder:
         self.o1, self.o0 = te.evolve_1site, te.evolve_0site
         rec = self
 
-        def e1(snode, ttns, *a, **k):
-            rec.events.append(["1site", rec.idx(ttns, snode), float(np.sign(np.real(a[-1]) if not k else np.real(k.get("tau", 0))))])
-            return rec.o1(snode, ttns, *a, **k)
+        # recorders never interfere: arguments pass through untouched; what cannot be interpreted is "unobserved" (=> SPEC-DRIFT at most)
+        def e1(*a, **k):
+            try:
+                rec.events.append(["1site", rec.idx(a[1], a[0]), float(np.sign(np.real(k["tau"] if "tau" in k else a[-1])))])
+            except Exception:
+                rec.events.append(["unobserved", -1, 0.0])
+            return rec.o1(*a, **k)
 
-        def e0(ms, snode, ttns, *a, **k):
-            rec.events.append(["0site", rec.idx(ttns, snode), float(np.sign(np.real(a[-1]) if not k else np.real(k.get("tau", 0))))])
-            return rec.o0(ms, snode, ttns, *a, **k)
+        def e0(*a, **k):
+            try:
+                rec.events.append(["0site", rec.idx(a[2], a[1]), float(np.sign(np.real(k["tau"] if "tau" in k else a[-1])))])
+            except Exception:
+                rec.events.append(["unobserved", -1, 0.0])
+            return rec.o0(*a, **k)
         from renormalizer.tn.tree import TTNS
         self.TTNS, self.o2, self.ou = TTNS, te.evolve_2site, TTNS.update_2site
         rec.ps2 = []
 
-        def e2(snode, ttns, *a, **k):
-            rec.ps2.append(["ev2", rec.idx(ttns, snode), 0])
-            return rec.o2(snode, ttns, *a, **k)
+        def e2(*a, **k):
+            try:
+                rec.ps2.append(["ev2", rec.idx(a[1], a[0]), 0])
+            except Exception:
+                rec.ps2.append(["unobserved", -1, 0])
+            return rec.o2(*a, **k)
 
-        def upd(self_, node, tensor, m=None, percent=0, cano_parent=True):
-            rec.ps2.append(["upd2", rec.idx(self_, node), 1 if cano_parent else 0])
-            return rec.ou(self_, node, tensor, m, percent, cano_parent=cano_parent)
+        def upd(self_, *a, **k):
+            try:
+                cp = k.get("cano_parent", a[4] if len(a) > 4 else True)
+                rec.ps2.append(["upd2", rec.idx(self_, a[0] if a else k["node"]), 1 if cp else 0])
+            except Exception:
+                rec.ps2.append(["unobserved", -1, 0])
+            return rec.ou(self_, *a, **k)
 
-        def e1b(snode, ttns, *a, **k):
-            rec.ps2.append(["ev1", rec.idx(ttns, snode), 0])
-            return e1(snode, ttns, *a, **k)
+        def e1b(*a, **k):
+            try:
+                rec.ps2.append(["ev1", rec.idx(a[1], a[0]), 0])
+            except Exception:
+                rec.ps2.append(["unobserved", -1, 0])
+            return e1(*a, **k)
         te.evolve_1site, te.evolve_0site, te.evolve_2site, TTNS.update_2site = e1b, e0, e2, upd
         return self
 
@@ -158,10 +175,10 @@ def _tree_cases(args):
                                     out["traces"] += 1
                                     got_ev = [[e[0], e[1]] for e in rec.events]
                                     if got_ev != [list(e) for e in exp_ev]:
-                                        out["viol"].append(("C12:schedule:tdvp_ps", f"the recorded sweep {got_ev} differs from the specified DFS schedule {exp_ev}", detail))
+                                        out["viol"].append(("DRIFT:C12:schedule:tdvp_ps", f"the recorded sweep {got_ev} differs from the specified DFS schedule {exp_ev}", detail))
                                     signs_ok = all((e[2] > 0) == (e[0] == "1site") for e in rec.events) if not imag else True
                                     if not signs_ok:
-                                        out["viol"].append(("C12:schedule-signs:tdvp_ps", "site tensors must be evolved forward (+tau/2) and bond tensors backward (-tau/2)", detail))
+                                        out["viol"].append(("DRIFT:C12:schedule-signs:tdvp_ps", "site tensors must be evolved forward (+tau/2) and bond tensors backward (-tau/2)", detail))
                             elif scheme == "tdvp_ps2" and "ps2:" + json.dumps(par) in schedules:
                                 with SweepRecorder(cur, node_index) as rec:
                                     new = cur.evolve(ttno, dt)
@@ -169,7 +186,7 @@ def _tree_cases(args):
                                 exp_ev = [list(e) for e in schedules["ps2:" + json.dumps(par)] if e[0] != "half"]
                                 if rec.ps2 != exp_ev:
                                     first = next((i for i, (a, b) in enumerate(zip(rec.ps2, exp_ev)) if a != b), min(len(rec.ps2), len(exp_ev)))
-                                    out["viol"].append(("C12:schedule:tdvp_ps2", f"the recorded two-site sweep differs from the specified schedule at event {first}: got {rec.ps2[first:first + 3]}, expected {exp_ev[first:first + 3]}", detail))
+                                    out["viol"].append(("DRIFT:C12:schedule:tdvp_ps2", f"the recorded two-site sweep differs from the specified schedule at event {first}: got {rec.ps2[first:first + 3]}, expected {exp_ev[first:first + 3]}", detail))
                             else:
                                 new = cur.evolve(ttno, dt)
                             after = trees.dense(cur, order=list(u.basis))
@@ -324,7 +341,7 @@ def run(ctx, owned="C12"):
         for c in o["cases"]:
             ctx.case(fingerprint=c, nontrivial=True)
         for key, what, detail in o["viol"]:
-            if key.startswith(owned):
+            if key.startswith(owned) or (owned == "C12" and key.startswith("DRIFT:C12")):
                 ctx.violation(key, what, detail)
             else:
                 other[key] = other.get(key, 0) + 1
